@@ -312,6 +312,47 @@ def check_hash_stream(acc, algo, total):
                       "%s: digest %s, standard says %s" % (what, d.hex(), exp.hex()), case)
 
 
+def check_hash_oneshot(acc, algo, total):
+    """ONE update() call carrying `total` bytes (>= 2^32 bits: whatever a single call adds to the length counter must not
+    be narrower than the counter).  Compared with hashlib where it has the algorithm, and with the library's own digest
+    of the same bytes fed in 16 MiB pieces (the property's segmentation clause; the only comparator for MD4)."""
+    global _PATTERN
+    if _PATTERN is None:
+        _PATTERN = asc(251) * 4178
+    L = lib()["hash"][algo]
+    hl = R.HASH_REF[algo][3]
+    acc.count("evaluations")
+    acc.count("hash_oneshot_cases")
+    acc.seen("shapes", ("hash-one", algo, total))
+    case = {"part": "hash-one", "algo": algo, "total": total}
+    what = "%s of %d bytes (pattern 00..fa repeated) in ONE update() call" % (algo, total)
+    buf = (_PATTERN * (total // len(_PATTERN) + 1))[:total]
+    try:
+        h = L.new_empty()
+        h.update(buf)
+        d = h.digest()
+        d0 = L.new_kw(buf).digest()
+        h2 = L.new_empty()
+        step = 1 << 24
+        mv = memoryview(buf)
+        for off in range(0, total, step):
+            h2.update(mv[off:off + step])
+        d2 = h2.digest()
+    except Exception as e:  # noqa
+        return _raised(acc, "hash", algo, e, what, case)
+    exp = hashlib.new(hl, buf).digest() if hl else None
+    del buf
+    if exp is not None and d != exp:
+        acc.violation("C03/hash/%s/value-single-long-call" % algo,
+                      "%s: digest %s, standard says %s" % (what, d.hex(), exp.hex()), case)
+    elif d != d2 or d0 != d:
+        acc.violation("C03/hash/%s/value-single-long-call" % algo,
+                      "%s: digest %s (new(data): %s), the same bytes in 16 MiB pieces give %s" % (what, d.hex(), d0.hex(), d2.hex()), case)
+    if exp is not None and d2 != exp:
+        acc.violation("C03/hash/%s/value-long-message" % algo,
+                      "%s of %d bytes in 16 MiB pieces: digest %s, standard says %s" % (algo, total, d2.hex(), exp.hex()), case)
+
+
 # ---------------------------------------------------------------------------
 # part: SHAKE128/256 (reference: hashlib)
 # ---------------------------------------------------------------------------
@@ -999,6 +1040,15 @@ def d_hashbig(acc, algo, total):
 STREAM_ALGOS = ("MD5", "RIPEMD160", "SHA1", "SHA224", "SHA256", "SHA384", "SHA512", "SHA512_224", "SHA512_256")
 
 
+ONESHOT_QUICK = ("MD4", "MD5", "RIPEMD160", "SHA1", "SHA256", "SHA512")
+ONESHOT_ALL = ("MD4", "MD5", "RIPEMD160", "SHA1", "SHA224", "SHA256", "SHA384", "SHA512", "SHA512_224", "SHA512_256",
+               "SHA3_256", "SHA3_512", "BLAKE2b", "BLAKE2s")
+
+
+def d_hashone(acc, algo, total):
+    check_hash_oneshot(acc, algo, total)
+
+
 STREAM_ALGOS_DEEP = ("SHA3_224", "SHA3_256", "SHA3_384", "SHA3_512", "BLAKE2b")
 
 
@@ -1027,6 +1077,10 @@ def gen_hash(q):
     total = (1 << 24) + 1 if q else (1 << 29) + 1
     for algo in STREAM_ALGOS:
         groups.append((total // 60, [("hashbig", algo, total)]))
+    # one call of at least 2^32 bits; quick: one algorithm per native source file with a length counter
+    one = (1 << 29) + 3
+    for algo in (ONESHOT_QUICK if q else ONESHOT_ALL):
+        groups.append((one // 20, [("hashone", algo, one)]))
     if not q:
         # BLAKE2s keeps a 32-bit low offset counter: cross 2^32 bytes once
         groups.append(((1 << 32) // 80, [("hashbig", "BLAKE2s", (1 << 32) + 65)]))
@@ -2436,7 +2490,7 @@ def gen_xofgrid(q):
     return groups
 
 
-DISPATCH = {"hash": d_hash, "hashbig": d_hashbig, "shake": d_shake, "cshake": d_cshake, "kmac": d_kmac,
+DISPATCH = {"hash": d_hash, "hashbig": d_hashbig, "hashone": d_hashone, "shake": d_shake, "cshake": d_cshake, "kmac": d_kmac,
             "tuplehash": d_tuplehash, "turbo": d_turbo, "k12": d_k12, "hmac": d_hmac, "cmac": d_cmac,
             "polyrs": d_polyrs, "poly": d_poly, "b2grid": d_b2grid, "b2full": d_b2full,
             "seg": d_seg, "rseg": d_rseg, "xofgrid": d_xofgrid, "k12cuts": d_k12cuts, "xofone": d_xofone,
@@ -2504,7 +2558,7 @@ def run(ctx):
     ctx.acc = MinAcc()
     groups = []
     expected = {}
-    names = {"hash": "hash_cases", "hashbig": "hash_stream_cases", "shake": "shake_cases",
+    names = {"hash": "hash_cases", "hashbig": "hash_stream_cases", "hashone": "hash_oneshot_cases", "shake": "shake_cases",
              "cshake": "cshake_cases", "kmac": "kmac_cases", "tuplehash": "tuplehash_cases",
              "turbo": "turbo_cases", "k12": "k12_cases", "hmac": "hmac_cases", "cmac": "cmac_cases",
              "polyrs": "poly_rs_cases", "poly": "poly_cases", "b2full": "blake2_cases"}
@@ -2830,6 +2884,8 @@ def replay(case, acc):
         check_hash(acc, case["algo"], case["msg"])
     elif p == "hash-stream":
         check_hash_stream(acc, case["algo"], case["total"])
+    elif p == "hash-one":
+        check_hash_oneshot(acc, case["algo"], case["total"])
     elif p == "shake":
         check_shake(acc, case["bits"], case["msg"], tuple(case["reads"]))
     elif p == "cshake":
